@@ -5,7 +5,7 @@
 From Coq Require Import ZArith List Bool Lia.
 From Verif Require Import Base.ZBits Codec.OffsetModel Codec.OffsetProofs Labels.LabelsModel Labels.LabelsExact Labels.FlatModel Labels.FlatLemmas
   Sections.CopyProofs Sections.JitReloc Sections.JitRelocProofs
-  Reloc.RelocModel Reloc.RelocProofs Reloc.X86Meaning Reloc.InstalledImage Labels.X86RefMeaning.
+  Reloc.RelocModel Reloc.RelocProofs Reloc.X86Meaning Reloc.InstalledImage Labels.X86RefMeaning Labels.X86EndToEnd Sections.SectionModel.
 From Verif Require Import X86.X86Model X86.X86Proofs.
 Import ListNotations.
 Local Open Scope Z_scope.
@@ -299,4 +299,344 @@ Proof.
   split. { intros e' [<-|[]]. unfold site_wf, site_hi, ex_abs32_entry. cbn [e_off e_lead e_fmt ufmt vsize length]. lia. }
   split. { intros i j a b Ha Hb Hij. destruct i as [|[|i]], j as [|[|j]]; cbn in Ha, Hb; try discriminate; congruence. }
   repeat split; vm_compute; reflexivity.
+Qed.
+
+(* ------------------------------------------------------------------ round 7: END TO END on the relocated bytes, no structural-instruction hypothesis *)
+(* a site whose patch does not rewrite the two bytes in front of the value word leaves every cell outside the value word alone *)
+Lemma patch_site_outside_nr data e o c : 0 <= e_off e + e_lead e -> 0 <= vsize (e_fmt e) ->
+  e_off e + e_lead e + vsize (e_fmt e) <= Z.of_nat (length data) -> 0 <= c -> o_rewrite o = None ->
+  ~ (e_off e + e_lead e <= c < e_off e + e_lead e + vsize (e_fmt e)) ->
+  cell (patch_site data e o) c = cell data c.
+Proof.
+  intros H2 Hv Hb Hc Hn Hout. unfold patch_site. rewrite Hn.
+  rewrite write_at_cell; [|lia|rewrite JitRelocProofs.le_bytes_length; lia|assumption]. rewrite JitRelocProofs.le_bytes_length.
+  destruct (Z.leb_spec (e_off e + e_lead e) c); destruct (Z.ltb_spec c (e_off e + e_lead e + Z.of_nat (Z.to_nat (vsize (e_fmt e))))); cbn [andb]; try reflexivity; lia.
+Qed.
+
+Definition leaves_alone (c : Z) (e : rentry) (o : rout) : Prop :=
+  ~ (site_lo e <= c < site_hi e) \/ (o_rewrite o = None /\ ~ (e_off e + e_lead e <= c < site_hi e)).
+
+Lemma patch_all_outside_gen es : forall outs data c, 0 <= c ->
+  (forall e, In e es -> site_wf data e) ->
+  (forall e o, In (e, o) (combine es outs) -> leaves_alone c e o) ->
+  cell (patch_all data es outs) c = cell data c.
+Proof.
+  induction es as [|e t IH]; intros outs data c Hc Hwf H; cbn [patch_all]; [reflexivity|]. destruct outs as [|o ot]; [reflexivity|].
+  destruct (Hwf e (or_introl eq_refl)) as (H2 & Hv & Hb). unfold site_hi in Hb.
+  assert (Hlen : length (patch_site data e o) = length data) by (apply patch_site_length; assumption).
+  rewrite IH.
+  - destruct (H e o (or_introl eq_refl)) as [Hout|(Hn & Hout)]; unfold site_lo, site_hi in Hout.
+    + apply patch_site_outside; assumption.
+    + apply patch_site_outside_nr; assumption.
+  - exact Hc.
+  - intros e' He'. destruct (Hwf e' (or_intror He')) as (A & B & C). split; [exact A|split; [exact B|]]. rewrite Hlen. exact C.
+  - intros e' o' Hin. apply H. right. exact Hin.
+Qed.
+
+Lemma cell_app_r (A X : list Z) k : 0 <= k -> cell (A ++ X) (zlen A + k) = cell X k.
+Proof. intros H. unfold cell, zlen. rewrite app_nth2 by lia. f_equal. lia. Qed.
+Lemma cell_app_l (X Y : list Z) k : 0 <= k < zlen X -> cell (X ++ Y) k = cell X k.
+Proof. intros H. unfold cell, zlen in *. apply app_nth1. lia. Qed.
+
+Lemma in_combine_nth {A B} (l : list A) : forall (l' : list B) x y, In (x, y) (combine l l') -> exists j, nth_error l j = Some x /\ nth_error l' j = Some y.
+Proof.
+  induction l as [|a t IH]; intros l' x y H; [destruct H|]. destruct l' as [|b t']; [destruct H|]. cbn [combine In] in H.
+  destruct H as [E|H]; [injection E as <- <-; exists O; auto|]. destruct (IH t' x y H) as (j & H1 & H2). exists (S j). auto.
+Qed.
+
+Lemma abs_to_rel_no_rewrite base asize atoff slots e o s' :
+  relocate_entry base asize atoff slots e = inl (o, s') -> e_kind e = RAbsToRel -> o_rewrite o = None.
+Proof.
+  intros H Hk. unfold relocate_entry in H. rewrite Hk in H.
+  destruct (asize <=? 4); [|destruct (is_int32 _); [|discriminate]]; destruct (write_offset _ _ _); try discriminate; injection H as <- _; reflexivity.
+Qed.
+
+(* END TO END on the relocated bytes: `call / jmp / jcc <absolute>` emitted as `pre` + a zero rel32 hole (RelocType::kAbsToRel), no
+   other relocation site touching the instruction: decoding the relocated bytes at the instruction's first byte designates the target *)
+Theorem reloc_branch_end_to_end base asize atoff reserved last es r data i e o (m : mode) pre mk (A Hh B : list Z) :
+  branch_form m 4 pre mk ->
+  relocate base asize atoff reserved last es = inl r ->
+  (forall e', In e' es -> site_wf data e') -> sites_disjoint es ->
+  nth_error es i = Some e -> nth_error (rr_outs r) i = Some o ->
+  e_kind e = RAbsToRel -> (if is64 m then 4 <? asize else asize <=? 4) = true -> e_fmt e = fmt_of_kind K_Rel32 -> e_old e = 0 ->
+  data = A ++ pre ++ Hh ++ B -> length Hh = 4%nat ->
+  e_off e = zlen A -> e_lead e = zlen pre -> e_region e = zlen pre + 4 ->
+  (forall j e', j <> i -> nth_error es j = Some e' -> site_hi e' <= zlen A \/ zlen A + zlen pre + 4 <= site_lo e') ->
+  site_target m CBranch (mkSh false false 4 1) (base + e_secoff e + e_off e) (skipn (Z.to_nat (zlen A)) (patch_all data es (rr_outs r)))
+    = Some (e_payload e mod 2 ^ abits m).
+Proof.
+  intros F Er Hwfs Hdis He Ho Hk Ha Hf Hold Hdata HlenH Eoff Elead Ereg Hreg.
+  destruct (relocated_site_bytes base asize atoff reserved last es r data i e o Er Hwfs Hdis He Ho) as (Hb & s1 & s2 & Hre).
+  pose proof (reloc_word_range _ _ _ _ _ _ _ Hre Hf Hold (or_introl Hk)) as Hw.
+  pose proof (abs_to_rel_no_rewrite _ _ _ _ _ _ _ Hre Hk) as Hnr.
+  set (P := patch_all data es (rr_outs r)). set (w := o_word o) in *. set (a := zlen A) in *. set (np := zlen pre) in *.
+  assert (HlenP : length P = length data).
+  { apply patch_all_length. intros e' He'. destruct (Hwfs e' He') as (X & Y & Z'). unfold site_hi in Z'. auto. }
+  assert (Hdl : zlen data = a + np + 4 + zlen B).
+  { rewrite Hdata. rewrite !zlen_app. unfold zlen at 3. rewrite HlenH. unfold a, np. lia. }
+  assert (Ha0 : 0 <= a) by (unfold a, zlen; lia). assert (Hnp0 : 0 <= np) by (unfold np, zlen; lia). assert (HB0 : 0 <= zlen B) by (unfold zlen; lia).
+  (* the cells of the instruction region in the relocated bytes *)
+  assert (Cpre : forall k, 0 <= k < np -> cell P (a + k) = cell pre k).
+  { intros k Hk'. unfold P. rewrite patch_all_outside_gen; [| lia | exact Hwfs |].
+    - rewrite Hdata. unfold a. rewrite cell_app_r by lia. apply cell_app_l. exact Hk'.
+    - intros e' o' Hin. destruct (in_combine_nth _ _ _ _ Hin) as (j & Hj1 & Hj2).
+      destruct (Nat.eq_dec j i) as [->|Nj].
+      + rewrite He in Hj1. injection Hj1 as <-. rewrite Ho in Hj2. injection Hj2 as <-. right. split; [exact Hnr|]. unfold site_hi. rewrite Eoff, Elead. fold a np. lia.
+      + left. destruct (Hreg j e' Nj Hj1) as [D|D]; fold a np in D; lia. }
+  assert (Cw : forall k, 0 <= k < 4 -> cell P (a + np + k) = cell (JitReloc.le_bytes 4 w) k).
+  { intros k Hk'. rewrite Hf in Hb. cbn [fmt_of_kind vsize] in Hb. change (Z.to_nat 4) with 4%nat in Hb. rewrite Eoff, Elead in Hb. fold a np in Hb. apply Hb. exact Hk'. }
+  set (n := (length pre + 4)%nat).
+  assert (Hfirst : firstn n (skipn (Z.to_nat a) P) = pre ++ JitReloc.le_bytes 4 w).
+  { rewrite firstn_skipn_cells by (rewrite HlenP; unfold zlen, n in *; lia).
+    rewrite (list_as_cells (pre ++ JitReloc.le_bytes 4 w)). rewrite app_length, JitRelocProofs.le_bytes_length. fold n.
+    apply map_ext_in. intros k Hk'. apply in_seq in Hk'.
+    destruct (Nat.lt_ge_cases k (length pre)) as [L|G].
+    - specialize (Cpre (Z.of_nat k) ltac:(unfold np, zlen; lia)). unfold cell in Cpre.
+      replace (Z.to_nat (a + Z.of_nat k)) with (Z.to_nat a + k)%nat in Cpre by lia. rewrite Nat2Z.id in Cpre. rewrite Cpre. symmetry. apply app_nth1. exact L.
+    - specialize (Cw (Z.of_nat k - np) ltac:(unfold np, zlen, n in *; lia)). unfold cell in Cw.
+      replace (Z.to_nat (a + np + (Z.of_nat k - np))) with (Z.to_nat a + k)%nat in Cw by lia. rewrite Cw.
+      rewrite app_nth2 by exact G. f_equal. unfold np, zlen. lia. }
+  assert (Hsplit : skipn (Z.to_nat a) P = (pre ++ JitReloc.le_bytes 4 w) ++ skipn n (skipn (Z.to_nat a) P))
+    by (rewrite <- (firstn_skipn n (skipn (Z.to_nat a) P)) at 1; rewrite Hfirst; reflexivity).
+  assert (Henc : senc m (mkSh false false 4 1) (mk w) (mkC false 0 false) = pre ++ JitReloc.le_bytes 4 w)
+    by (rewrite (bf_enc _ _ _ _ F); f_equal; rewrite le_bytes_is_le_split; symmetry; apply jit_le_bytes_is_le_split).
+  fold a. rewrite Hsplit, <- Henc.
+  apply (branch_designates_target base asize atoff s1 e o s2 m (mkSh false false 4 1) (mk w) (mkC false 0 false) false false false false _
+           Hre Hk Ha Hf Hold (bf_modrm _ _ _ _ F w) (bf_imm _ _ _ _ F w)
+           (bf_wf _ _ _ _ F w ltac:(change (256 ^ Z.of_nat 4) with (2 ^ 32); exact Hw)) (bf_adm _ _ _ _ F w)).
+  rewrite Henc, app_length, JitRelocProofs.le_bytes_length, Ereg. unfold np, zlen. lia.
+Qed.
+
+Example reloc_branch_end_to_end_witness :
+  exists r o, branch_form M64 4 [233] (mk_leg false 0 233) /\
+    relocate 4194304 8 0 0 false [ex_jmp_entry] = inl r /\ nth_error (rr_outs r) O = Some o /\
+    (forall e', In e' [ex_jmp_entry] -> site_wf [233; 0; 0; 0; 0] e') /\ sites_disjoint [ex_jmp_entry] /\
+    [233; 0; 0; 0; 0] = [] ++ [233] ++ [0; 0; 0; 0] ++ [] /\
+    (forall j e', j <> O -> nth_error [ex_jmp_entry] j = Some e' -> site_hi e' <= zlen (@nil Z) \/ zlen (@nil Z) + zlen [233] + 4 <= site_lo e') /\
+    site_target M64 CBranch (mkSh false false 4 1) (4194304 + 0 + 0) (skipn (Z.to_nat (zlen (@nil Z))) (patch_all [233; 0; 0; 0; 0] [ex_jmp_entry] (rr_outs r)))
+      = Some 4198400.
+Proof.
+  eexists. eexists. split; [apply form_jmp32|]. split; [vm_compute; reflexivity|]. split; [vm_compute; reflexivity|].
+  split. { intros e' [<-|[]]. unfold site_wf, site_hi, ex_jmp_entry. cbn [e_off e_lead e_fmt fmt_of_kind vsize length]. lia. }
+  split. { intros i j a b Ha Hb Hij. destruct i as [|[|i]], j as [|[|j]]; cbn in Ha, Hb; try discriminate; congruence. }
+  split; [reflexivity|]. split.
+  - intros [|[|j]] e' Hj H; cbn in H; try discriminate. congruence.
+  - vm_compute. reflexivity.
+Qed.
+
+(* the relocated bytes of an instruction region pre ++ hole ++ post whose only relocation site is the hole (no opcode rewrite) *)
+Lemma relocated_region base asize atoff reserved last es r data i e o pre post (A Hh B : list Z) :
+  relocate base asize atoff reserved last es = inl r ->
+  (forall e', In e' es -> site_wf data e') -> sites_disjoint es ->
+  nth_error es i = Some e -> nth_error (rr_outs r) i = Some o -> o_rewrite o = None -> vsize (e_fmt e) = 4 ->
+  data = A ++ pre ++ Hh ++ post ++ B -> length Hh = 4%nat ->
+  e_off e = zlen A -> e_lead e = zlen pre ->
+  (forall j e', j <> i -> nth_error es j = Some e' -> site_hi e' <= zlen A \/ zlen A + zlen pre + 4 + zlen post <= site_lo e') ->
+  exists rest, skipn (Z.to_nat (zlen A)) (patch_all data es (rr_outs r)) = (pre ++ JitReloc.le_bytes 4 (o_word o) ++ post) ++ rest.
+Proof.
+  intros Er Hwfs Hdis He Ho Hnr Hv Hdata HlenH Eoff Elead Hreg.
+  destruct (relocated_site_bytes base asize atoff reserved last es r data i e o Er Hwfs Hdis He Ho) as (Hb & _).
+  set (P := patch_all data es (rr_outs r)). set (w := o_word o) in *. set (a := zlen A) in *. set (np := zlen pre) in *. set (nq := zlen post) in *.
+  assert (HlenP : length P = length data).
+  { apply patch_all_length. intros e' He'. destruct (Hwfs e' He') as (X & Y & Z'). unfold site_hi in Z'. auto. }
+  assert (Hdl : zlen data = a + np + 4 + nq + zlen B).
+  { rewrite Hdata. rewrite !zlen_app. unfold zlen at 3. rewrite HlenH. unfold a, np, nq. lia. }
+  assert (Ha0 : 0 <= a) by (unfold a, zlen; lia). assert (Hnp0 : 0 <= np) by (unfold np, zlen; lia).
+  assert (Hnq0 : 0 <= nq) by (unfold nq, zlen; lia). assert (HB0 : 0 <= zlen B) by (unfold zlen; lia).
+  assert (Cout : forall c, a <= c < a + np + 4 + nq -> ~ (a + np <= c < a + np + 4) -> cell P c = cell data c).
+  { intros c Hc Hnw. unfold P. apply patch_all_outside_gen; [lia|exact Hwfs|].
+    intros e' o' Hin. destruct (in_combine_nth _ _ _ _ Hin) as (j & Hj1 & Hj2).
+    destruct (Nat.eq_dec j i) as [->|Nj].
+    - rewrite He in Hj1. injection Hj1 as <-. rewrite Ho in Hj2. injection Hj2 as <-. right. split; [exact Hnr|]. unfold site_hi. rewrite Eoff, Elead, Hv. fold a np. lia.
+    - left. destruct (Hreg j e' Nj Hj1) as [D|D]; fold a np nq in D; lia. }
+  assert (Cpre : forall k, 0 <= k < np -> cell P (a + k) = cell pre k).
+  { intros k Hk. rewrite Cout by lia. rewrite Hdata. unfold a. rewrite cell_app_r by lia. apply cell_app_l. exact Hk. }
+  assert (Cw : forall k, 0 <= k < 4 -> cell P (a + np + k) = cell (JitReloc.le_bytes 4 w) k).
+  { intros k Hk. rewrite Hv in Hb. change (Z.to_nat 4) with 4%nat in Hb. rewrite Eoff, Elead in Hb. fold a np in Hb. apply Hb. exact Hk. }
+  assert (Cpost : forall k, 0 <= k < nq -> cell P (a + np + 4 + k) = cell post k).
+  { intros k Hk. rewrite Cout by lia. rewrite Hdata. unfold a.
+    replace (zlen A + np + 4 + k) with (zlen A + (np + (4 + k))) by lia. rewrite cell_app_r by lia.
+    unfold np. rewrite cell_app_r by lia. replace (4 + k) with (zlen Hh + k) by (unfold zlen; rewrite HlenH; lia). rewrite cell_app_r by lia.
+    apply cell_app_l. exact Hk. }
+  set (n := (length pre + 4 + length post)%nat).
+  exists (skipn n (skipn (Z.to_nat a) P)).
+  rewrite <- (firstn_skipn n (skipn (Z.to_nat a) P)) at 1. f_equal.
+  rewrite firstn_skipn_cells by (rewrite HlenP; unfold zlen, n in *; lia).
+  rewrite (list_as_cells (pre ++ JitReloc.le_bytes 4 w ++ post)). rewrite !app_length, JitRelocProofs.le_bytes_length.
+  replace (length pre + (4 + length post))%nat with n by (unfold n; lia).
+  apply map_ext_in. intros k Hk. apply in_seq in Hk.
+  destruct (Nat.lt_ge_cases k (length pre)) as [L|G].
+  - specialize (Cpre (Z.of_nat k) ltac:(unfold np, zlen; lia)). unfold cell in Cpre.
+    replace (Z.to_nat (a + Z.of_nat k)) with (Z.to_nat a + k)%nat in Cpre by lia. rewrite Nat2Z.id in Cpre. rewrite Cpre. symmetry. apply app_nth1. exact L.
+  - rewrite (app_nth2 pre) by exact G. destruct (Nat.lt_ge_cases (k - length pre) 4) as [L4|G4].
+    + specialize (Cw (Z.of_nat k - np) ltac:(unfold np, zlen in *; lia)). unfold cell in Cw.
+      replace (Z.to_nat (a + np + (Z.of_nat k - np))) with (Z.to_nat a + k)%nat in Cw by lia. rewrite Cw.
+      rewrite app_nth1 by (rewrite JitRelocProofs.le_bytes_length; exact L4). f_equal. unfold np, zlen. lia.
+    + rewrite app_nth2 by (rewrite JitRelocProofs.le_bytes_length; exact G4). rewrite JitRelocProofs.le_bytes_length.
+      specialize (Cpost (Z.of_nat k - np - 4) ltac:(unfold np, nq, zlen, n in *; lia)). unfold cell in Cpost.
+      replace (Z.to_nat (a + np + 4 + (Z.of_nat k - np - 4))) with (Z.to_nat a + k)%nat in Cpost by lia. rewrite Cpost. f_equal. unfold np, zlen. lia.
+Qed.
+
+(* x86-64 `[abs]` operand made RIP-relative (AbsToRel on the disp32; lea / mov load / mov store forms), on the relocated bytes *)
+Theorem reloc_rip_end_to_end base asize atoff reserved last es r data i e o pre mk reg (A Hh B : list Z) :
+  rip_form pre mk reg ->
+  relocate base asize atoff reserved last es = inl r ->
+  (forall e', In e' es -> site_wf data e') -> sites_disjoint es ->
+  nth_error es i = Some e -> nth_error (rr_outs r) i = Some o ->
+  e_kind e = RAbsToRel -> 4 < asize -> e_fmt e = fmt_of_kind K_Rel32 -> e_old e = 0 ->
+  data = A ++ pre ++ Hh ++ B -> length Hh = 4%nat ->
+  e_off e = zlen A -> e_lead e = zlen pre -> e_region e = zlen pre + 4 ->
+  (forall j e', j <> i -> nth_error es j = Some e' -> site_hi e' <= zlen A \/ zlen A + zlen pre + 4 <= site_lo e') ->
+  site_target M64 CMem (mkSh true false 0 1) (base + e_secoff e + e_off e) (skipn (Z.to_nat (zlen A)) (patch_all data es (rr_outs r)))
+    = Some (e_payload e mod 2 ^ 64).
+Proof.
+  intros F Er Hwfs Hdis He Ho Hk Ha Hf Hold Hdata HlenH Eoff Elead Ereg Hreg.
+  destruct (relocated_site_bytes base asize atoff reserved last es r data i e o Er Hwfs Hdis He Ho) as (_ & s1 & s2 & Hre).
+  pose proof (reloc_word_range _ _ _ _ _ _ _ Hre Hf Hold (or_introl Hk)) as Hw.
+  pose proof (abs_to_rel_no_rewrite _ _ _ _ _ _ _ Hre Hk) as Hnr.
+  destruct (relocated_region base asize atoff reserved last es r data i e o pre [] A Hh B Er Hwfs Hdis He Ho Hnr
+              ltac:(rewrite Hf; reflexivity) ltac:(rewrite Hdata; reflexivity) HlenH Eoff Elead
+              ltac:(intros j e' Hj Hn; destruct (Hreg j e' Hj Hn) as [D|D]; [left; exact D|right; unfold zlen at 3; cbn [length]; lia])) as (rest & Hsk).
+  rewrite app_nil_r in Hsk. set (w := o_word o) in *.
+  destruct (sext32_back w Hw) as (Hback & Hsr).
+  assert (Henc : senc M64 (mkSh true false 0 1) (mk (sext32 w)) (mkC false 0 false) = pre ++ JitReloc.le_bytes 4 w)
+    by (rewrite (rf_enc _ _ _ F), Hback; f_equal; rewrite le_bytes_is_le_split; symmetry; apply jit_le_bytes_is_le_split).
+  rewrite Hsk, <- Henc.
+  apply (rip_operand_designates_target base asize atoff s1 e o s2 (mkSh true false 0 1) (mk (sext32 w)) (mkC false 0 false) reg rest
+           Hre Hk Ha Hf Hold (rf_modrm _ _ _ F (sext32 w)) (rf_wf _ _ _ F _ Hsr) (rf_adm _ _ _ F _)).
+  rewrite Henc, app_length, JitRelocProofs.le_bytes_length, Ereg. unfold zlen. lia.
+Qed.
+
+(* ... followed by an n-byte immediate (mov [abs], imm / add [abs], imm8) *)
+Theorem reloc_rip_imm_end_to_end base asize atoff reserved last es r data i e o n pre mk reg imm (A Hh B : list Z) :
+  rip_form_imm n pre mk reg -> 0 <= imm < 256 ^ Z.of_nat n ->
+  relocate base asize atoff reserved last es = inl r ->
+  (forall e', In e' es -> site_wf data e') -> sites_disjoint es ->
+  nth_error es i = Some e -> nth_error (rr_outs r) i = Some o ->
+  e_kind e = RAbsToRel -> 4 < asize -> e_fmt e = fmt_of_kind K_Rel32 -> e_old e = 0 ->
+  data = A ++ pre ++ Hh ++ X86Model.le_bytes n imm ++ B -> length Hh = 4%nat ->
+  e_off e = zlen A -> e_lead e = zlen pre -> e_region e = zlen pre + 4 + Z.of_nat n ->
+  (forall j e', j <> i -> nth_error es j = Some e' -> site_hi e' <= zlen A \/ zlen A + zlen pre + 4 + Z.of_nat n <= site_lo e') ->
+  site_target M64 CMem (mkSh true false n 1) (base + e_secoff e + e_off e) (skipn (Z.to_nat (zlen A)) (patch_all data es (rr_outs r)))
+    = Some (e_payload e mod 2 ^ 64).
+Proof.
+  intros F Himm Er Hwfs Hdis He Ho Hk Ha Hf Hold Hdata HlenH Eoff Elead Ereg Hreg.
+  destruct (relocated_site_bytes base asize atoff reserved last es r data i e o Er Hwfs Hdis He Ho) as (_ & s1 & s2 & Hre).
+  pose proof (reloc_word_range _ _ _ _ _ _ _ Hre Hf Hold (or_introl Hk)) as Hw.
+  pose proof (abs_to_rel_no_rewrite _ _ _ _ _ _ _ Hre Hk) as Hnr.
+  destruct (relocated_region base asize atoff reserved last es r data i e o pre (X86Model.le_bytes n imm) A Hh B Er Hwfs Hdis He Ho Hnr
+              ltac:(rewrite Hf; reflexivity) Hdata HlenH Eoff Elead
+              ltac:(intros j e' Hj Hn; destruct (Hreg j e' Hj Hn) as [D|D]; [left; exact D|right; unfold zlen at 3; rewrite X86Proofs.le_bytes_length; lia])) as (rest & Hsk).
+  set (w := o_word o) in *.
+  destruct (sext32_back w Hw) as (Hback & Hsr).
+  assert (Henc : senc M64 (mkSh true false n 1) (mk (sext32 w) imm) (mkC false 0 false) = pre ++ JitReloc.le_bytes 4 w ++ X86Model.le_bytes n imm)
+    by (rewrite (ri_enc _ _ _ _ F), Hback; f_equal; f_equal; rewrite le_bytes_is_le_split; symmetry; apply jit_le_bytes_is_le_split).
+  rewrite Hsk, <- Henc.
+  apply (rip_operand_designates_target base asize atoff s1 e o s2 (mkSh true false n 1) (mk (sext32 w) imm) (mkC false 0 false) reg rest
+           Hre Hk Ha Hf Hold (ri_modrm _ _ _ _ F (sext32 w) imm) (ri_wf _ _ _ _ F _ _ Hsr Himm) (ri_adm _ _ _ _ F _ _)).
+  rewrite Henc, !app_length, JitRelocProofs.le_bytes_length, X86Proofs.le_bytes_length, Ereg. unfold zlen. lia.
+Qed.
+
+Example reloc_rip_end_to_end_witness :
+  exists r o, rip_form [72; 141; 5] (mk_rip 141 0) 0 /\
+    relocate 4194304 8 0 0 false [ex_lea_entry] = inl r /\ nth_error (rr_outs r) O = Some o /\
+    (forall e', In e' [ex_lea_entry] -> site_wf [72; 141; 5; 0; 0; 0; 0] e') /\ sites_disjoint [ex_lea_entry] /\
+    [72; 141; 5; 0; 0; 0; 0] = [] ++ [72; 141; 5] ++ [0; 0; 0; 0] ++ [] /\
+    site_target M64 CMem (mkSh true false 0 1) (4194304 + 0 + 0) (skipn (Z.to_nat (zlen (@nil Z))) (patch_all [72; 141; 5; 0; 0; 0; 0] [ex_lea_entry] (rr_outs r)))
+      = Some 4198400.
+Proof.
+  eexists. eexists. split; [exact (rip_forms 141 0 (or_introl eq_refl) ltac:(lia))|]. split; [vm_compute; reflexivity|]. split; [vm_compute; reflexivity|].
+  split. { intros e' [<-|[]]. unfold site_wf, site_hi, ex_lea_entry. cbn [e_off e_lead e_fmt fmt_of_kind vsize length]. lia. }
+  split. { intros i j a b Ha Hb Hij. destruct i as [|[|i]], j as [|[|j]]; cbn in Ha, Hb; try discriminate; congruence. }
+  split; [reflexivity|]. vm_compute. reflexivity.
+Qed.
+
+(* ------------------------------------------------------------------ x86-32 absolute memory operands `[label + disp]` (RelToAbs on the disp32) *)
+Record abs_form (n : nat) (pre : list Z) (mk : Z -> Z -> sinst) (reg : Z) : Prop := {
+  af_enc : forall d imm, senc M32 (mkSh true false n 1) (mk d imm) (mkC false 0 false)
+                         = pre ++ X86Model.le_bytes 4 (d mod 4294967296) ++ X86Model.le_bytes n imm;
+  af_wf : forall d imm, -2147483648 <= d < 2147483648 -> 0 <= imm < 256 ^ Z.of_nat n -> wf M32 (mkSh true false n 1) (mk d imm) = true;
+  af_adm : forall d imm, adm M32 (mkSh true false n 1) (mk d imm) (mkC false 0 false) = true;
+  af_modrm : forall d imm, s_modrm (mk d imm) = MMem reg (mkM BNone None 0 d)
+}.
+
+Definition mk_abs32 (p66 : bool) (opc reg d imm : Z) : sinst :=
+  {| s_pfx := {| p_lock := false; p_f2 := false; p_f3 := false; p_66 := p66; p_67 := false; p_seg := 0 |};
+     s_kind := KLeg; s_rex := false; s_W := false; s_vvvv := 0; s_V' := false; s_L := 0; s_pp := 0; s_map := 0;
+     s_opc := opc; s_aaa := 0; s_z := false; s_b := false; s_modrm := MMem reg (mkM BNone None 0 d); s_imm := imm |}.
+
+Ltac abs_form_tac :=
+  constructor; intros d imm; try intros Hd Hi;
+  [ unfold senc; cbn [mk_abs32 s_modrm enc_modrm s_pfx s_imm]; unfold enc_mem; cbn [a16 is64 negb andb p_67]; cbv iota;
+    cbn [m_base m_index m_disp sh_imm sh_n c_sib orb is64]; cbv iota; apply app_cons_tail2; vm_compute; reflexivity
+  | unfold wf; cbn [mk_abs32 s_pfx s_opc s_imm s_kind s_map s_vvvv s_V' s_L s_pp s_aaa s_z s_b s_rex s_W s_modrm sh_imm sh_n];
+    unfold wf_modrm, wf_mem; cbn [a16 is64 negb andb p_67 m_disp m_scale m_index m_base sh_modrm sh_vsib];
+    replace (zin (-2147483648) d 2147483648) with true by (symmetry; unfold zin; apply andb_true_intro; split; [apply Z.leb_le|apply Z.ltb_lt]; lia);
+    replace (zin 0 imm _) with true by (symmetry; unfold zin; apply andb_true_intro; split; [apply Z.leb_le|apply Z.ltb_lt]; lia);
+    vm_compute; reflexivity
+  | reflexivity | reflexivity ].
+
+Lemma abs_forms_rm opc reg : opc = 141 \/ opc = 139 \/ opc = 137 -> 0 <= reg < 8 -> abs_form 0 [opc; 8 * reg + 5] (mk_abs32 false opc reg) reg.
+Proof.
+  intros Ho Hr. assert (C : reg = 0 \/ reg = 1 \/ reg = 2 \/ reg = 3 \/ reg = 4 \/ reg = 5 \/ reg = 6 \/ reg = 7) by lia.
+  destruct Ho as [-> | [-> | ->]]; repeat (destruct C as [->|C]; [abs_form_tac|]); subst reg; abs_form_tac.
+Qed.
+Lemma abs_form_mov8 : abs_form 1 [198; 5] (mk_abs32 false 198 0) 0.
+Proof. abs_form_tac. Qed.
+Lemma abs_form_mov16 : abs_form 2 [102; 199; 5] (mk_abs32 true 199 0) 0.
+Proof. abs_form_tac. Qed.
+Lemma abs_form_mov32 : abs_form 4 [199; 5] (mk_abs32 false 199 0) 0.
+Proof. abs_form_tac. Qed.
+Lemma abs_form_add8 : abs_form 1 [131; 5] (mk_abs32 false 131 0) 0.
+Proof. abs_form_tac. Qed.
+
+Lemma rel_to_abs_no_rewrite base asize atoff slots e o s' toff :
+  relocate_entry base asize atoff slots e = inl (o, s') -> e_kind e = RRelToAbs toff -> o_rewrite o = None.
+Proof.
+  intros H Hk. unfold relocate_entry in H. rewrite Hk in H. destruct toff; [|discriminate].
+  destruct (write_offset _ _ _); try discriminate; injection H as <- _; reflexivity.
+Qed.
+
+Theorem reloc_abs32_end_to_end base asize atoff reserved last es r data i e o n pre mk reg imm toff (A Hh B : list Z) :
+  abs_form n pre mk reg -> 0 <= imm < 256 ^ Z.of_nat n ->
+  relocate base asize atoff reserved last es = inl r ->
+  (forall e', In e' es -> site_wf data e') -> sites_disjoint es ->
+  nth_error es i = Some e -> nth_error (rr_outs r) i = Some o ->
+  e_kind e = RRelToAbs (Some toff) -> e_fmt e = ufmt 4 -> e_old e = 0 ->
+  data = A ++ pre ++ Hh ++ X86Model.le_bytes n imm ++ B -> length Hh = 4%nat ->
+  e_off e = zlen A -> e_lead e = zlen pre ->
+  (forall j e', j <> i -> nth_error es j = Some e' -> site_hi e' <= zlen A \/ zlen A + zlen pre + 4 + Z.of_nat n <= site_lo e') ->
+  site_target M32 CMem (mkSh true false n 1) (base + e_secoff e + e_off e) (skipn (Z.to_nat (zlen A)) (patch_all data es (rr_outs r)))
+    = Some ((e_payload e + base + toff) mod 2 ^ 64) /\
+  (e_payload e + base + toff) mod 2 ^ 64 < 2 ^ 32.
+Proof.
+  intros F Himm Er Hwfs Hdis He Ho Hk Hf Hold Hdata HlenH Eoff Elead Hreg.
+  destruct (relocated_site_bytes base asize atoff reserved last es r data i e o Er Hwfs Hdis He Ho) as (_ & s1 & s2 & Hre).
+  destruct (reloc_abs_exact base asize atoff s1 e o s2 Hre toff 4 Hk Hf ltac:(tauto) Hold) as (Hwv & Hlt & _).
+  assert (Hw : 0 <= o_word o < 2 ^ 32) by (split; [rewrite Hwv; apply Z.mod_pos_bound; lia|exact Hlt]).
+  pose proof (rel_to_abs_no_rewrite _ _ _ _ _ _ _ _ Hre Hk) as Hnr.
+  destruct (relocated_region base asize atoff reserved last es r data i e o pre (X86Model.le_bytes n imm) A Hh B Er Hwfs Hdis He Ho Hnr
+              ltac:(rewrite Hf; reflexivity) Hdata HlenH Eoff Elead
+              ltac:(intros j e' Hj Hn; destruct (Hreg j e' Hj Hn) as [D|D]; [left; exact D|right; unfold zlen at 3; rewrite X86Proofs.le_bytes_length; lia])) as (rest & Hsk).
+  set (w := o_word o) in *.
+  destruct (sext32_back w Hw) as (Hback & Hsr).
+  assert (Henc : senc M32 (mkSh true false n 1) (mk (sext32 w) imm) (mkC false 0 false) = pre ++ JitReloc.le_bytes 4 w ++ X86Model.le_bytes n imm)
+    by (rewrite (af_enc _ _ _ _ F), Hback; f_equal; f_equal; rewrite le_bytes_is_le_split; symmetry; apply jit_le_bytes_is_le_split).
+  rewrite Hsk, <- Henc.
+  exact (abs32_operand_designates_target base asize atoff s1 e o s2 (mkSh true false n 1) (mk (sext32 w) imm) (mkC false 0 false) reg toff rest
+           Hre Hk Hf Hold (af_modrm _ _ _ _ F (sext32 w) imm) (af_wf _ _ _ _ F _ _ Hsr Himm) (af_adm _ _ _ _ F _ _)).
+Qed.
+
+Example reloc_abs32_end_to_end_witness :
+  exists r o, abs_form 0 [139; 8 * 0 + 5] (mk_abs32 false 139 0) 0 /\
+    relocate 4194304 4 0 0 false [ex_abs32_entry] = inl r /\ nth_error (rr_outs r) O = Some o /\
+    (forall e', In e' [ex_abs32_entry] -> site_wf [139; 5; 0; 0; 0; 0] e') /\ sites_disjoint [ex_abs32_entry] /\
+    [139; 5; 0; 0; 0; 0] = [] ++ [139; 8 * 0 + 5] ++ [0; 0; 0; 0] ++ X86Model.le_bytes 0 0 ++ [] /\
+    site_target M32 CMem (mkSh true false 0 1) (4194304 + 0 + 0) (skipn (Z.to_nat (zlen (@nil Z))) (patch_all [139; 5; 0; 0; 0; 0] [ex_abs32_entry] (rr_outs r)))
+      = Some 4194568.
+Proof.
+  eexists. eexists. split; [apply abs_forms_rm; [auto|lia]|]. split; [vm_compute; reflexivity|]. split; [vm_compute; reflexivity|].
+  split. { intros e' [<-|[]]. unfold site_wf, site_hi, ex_abs32_entry. cbn [e_off e_lead e_fmt ufmt vsize length]. lia. }
+  split. { intros i j a b Ha Hb Hij. destruct i as [|[|i]], j as [|[|j]]; cbn in Ha, Hb; try discriminate; congruence. }
+  split; [reflexivity|]. vm_compute. reflexivity.
 Qed.
